@@ -6,6 +6,9 @@ def run(ctx):
     L.rule_order(ctx, "R1")
     L.rule_serialization(ctx, "R2")
     L.rule_tags(ctx, "R3")
-    L.rule_emission_guards(ctx, "R4")
-    from .c08 import walk_shape
-    walk_shape(ctx, "R5")
+    L.rule_model(ctx, "R4")
+    from .c08 import model_table
+    model_table(ctx, "R5")
+    ctx.rule("R6", "special hosts (kept as one stem): SPECIAL_HOSTS_RE accepts exactly localhost / dotted quads (optional port) / colon-bearing hex literals as whole strings")
+    from .common_url import rule_special_hosts
+    rule_special_hosts(ctx, "R6")
